@@ -291,6 +291,10 @@ func (x *g) top(min, max int, blocks []string, images bool) []Node {
 		case k < 17:
 			out = append(out, x.each(topLists[x.intn(0, len(topLists)-1, "lst")], 1, true))
 		case k < 18 && images:
+			if x.chance(45, "imgline") {
+				out = append(out, x.imageLine()...)
+				break
+			}
 			im := x.pick(imageNames, "img")
 			x.usedImgs[im] = true
 			out = append(out, Node{K: KLit, S: "\n"}, Node{K: KImage, S: im}, Node{K: KLit, S: "\n"})
@@ -305,6 +309,42 @@ func (x *g) top(min, max int, blocks []string, images bool) []Node {
 	}
 	for ; bi < len(blocks); bi++ {
 		out = append(out, x.block(blocks[bi]))
+	}
+	return out
+}
+
+// imageLine draws 1-3 image placeholders inside a line of text: [text] image ([text] image)* [text], where text is
+// literal tokens without newlines and variables, and a further placeholder mostly names the same image again.
+func (x *g) imageLine() []Node {
+	var out []Node
+	if x.chance(50, "ilnl") {
+		out = append(out, Node{K: KLit, S: "\n"})
+	}
+	seg := func() {
+		for i, n := 0, x.intn(0, 2, "ilsegn"); i < n; i++ {
+			if x.chance(60, "ilsegk") {
+				out = append(out, x.lit(false))
+			} else {
+				out = append(out, x.variable())
+			}
+		}
+	}
+	seg()
+	first := x.pick(imageNames, "img")
+	x.usedImgs[first] = true
+	out = append(out, Node{K: KImage, S: first})
+	for i, n := 0, x.intn(0, 2, "ilmore"); i < n; i++ {
+		seg()
+		im := first
+		if x.chance(40, "ilother") {
+			im = x.pick(imageNames, "img")
+		}
+		x.usedImgs[im] = true
+		out = append(out, Node{K: KImage, S: im})
+	}
+	seg()
+	if x.chance(50, "ilnl2") {
+		out = append(out, Node{K: KLit, S: "\n"})
 	}
 	return out
 }
@@ -780,6 +820,26 @@ func genCase(t *rapid.T) Case {
 			ov = append(ov, Override{Name: blocks[0], Body: x.top(1, 3, nil, false)})
 		}
 		c.Children = append(c.Children, ov)
+	}
+	// siblings: further templates derived from a template of the family, and the renders before the final one
+	if len(blocks) > 0 && x.chance(55, "sibs") {
+		for j, n := 0, x.intn(1, 2, "nsib"); j < n; j++ {
+			sb := Sib{P: x.uniform(levels+j, "sibp")}
+			for _, b := range blocks {
+				if x.chance(50, "sovr") {
+					sb.Ov = append(sb.Ov, Override{Name: b, Body: x.top(0, 3, nil, false)})
+				}
+			}
+			if len(sb.Ov) == 0 && x.chance(80, "sovr1") {
+				sb.Ov = append(sb.Ov, Override{Name: blocks[x.uniform(len(blocks), "sovrb")], Body: x.top(1, 3, nil, false)})
+			}
+			c.Sibs = append(c.Sibs, sb)
+		}
+	}
+	if nt := levels + len(c.Sibs); nt >= 2 && x.chance(70, "seq") {
+		for i, n := 0, x.intn(1, 3, "seqn"); i < n; i++ {
+			c.Seq = append(c.Seq, x.uniform(nt, "seqk"))
+		}
 	}
 	c.Data = x.data()
 	// often: a used variable whose value names another supplied variable. With one template level this is judged
